@@ -331,14 +331,29 @@ pub fn run(c: &Case) -> Outcome {
             g_directed(&g0, &v0, "Graph<u32>", &mut ans, s, t);
             g_compact(&g0, "Graph<u32>", &mut ans);
             g_floyd(&g0, &v0, "Graph<u32>", &mut ans);
-            // E1 Graph u8, relabeled, reversed insertion order
-            let g1: Graph<usize, i32, $ty, u8> = to_graph(&b, |w| w);
-            let v1 = View::full(&b, (0..n).map(NodeIndex::new));
-            ans.back = inv.clone();
-            common!(&g1, &v1, "Graph<u8> relabeled+reversed insertion");
-            g_directed(&g1, &v1, "Graph<u8> relabeled+reversed insertion", &mut ans, s, t);
-            g_compact(&g1, "Graph<u8> relabeled+reversed insertion", &mut ans);
-            g_floyd(&g1, &v1, "Graph<u8> relabeled+reversed insertion", &mut ans);
+            // E1 Graph with a narrow index type (u8 while the edges fit, else u16), relabeled, reversed insertion order
+            macro_rules! e1 {
+                ($ix:ty, $name:expr) => {{
+                    let g1: Graph<usize, i32, $ty, $ix> = to_graph(&b, |w| w);
+                    let v1 = View::full(&b, (0..n).map(NodeIndex::new));
+                    ans.back = inv.clone();
+                    common!(&g1, &v1, $name);
+                    g_directed(&g1, &v1, $name, &mut ans, s, t);
+                    g_compact(&g1, $name, &mut ans);
+                    g_floyd(&g1, &v1, $name, &mut ans);
+                    if is_simple && !a0.directed && loopfree {
+                        g_cliques(&g1, &v1, $name, &mut ans);
+                    }
+                    if is_simple {
+                        ans.put("is_isomorphic(Graph, Graph relabeled)", "pair", || format!("{}", is_isomorphic(&g0, &g1)));
+                    }
+                }};
+            }
+            if b.m() < 250 {
+                e1!(u8, "Graph<u8> relabeled+reversed insertion");
+            } else {
+                e1!(u16, "Graph<u16> relabeled+reversed insertion");
+            }
             // E2 StableGraph with holes (identity labels), E2b relabeled with other holes
             let (g2, m2) = to_stable_holes::<i32, $ty, u32>(&a0, salt, |w| w);
             let v2 = View::full(&a0, m2);
@@ -357,9 +372,11 @@ pub fn run(c: &Case) -> Outcome {
                 g_flow(&f0, &v0, "Graph<u32>", &mut ans, s, t);
                 let (f2, fm2) = to_stable_holes::<u32, $ty, u32>(&a0, salt, |w| w.unsigned_abs());
                 g_flow(&f2, &View::full(&a0, fm2), "StableGraph holes", &mut ans, s, t);
-                let (f2b, fm2b) = to_stable_holes::<u32, $ty, u8>(&b, salt + 9, |w| w.unsigned_abs());
-                ans.back = inv.clone();
-                g_flow(&f2b, &View::full(&b, fm2b), "StableGraph<u8> holes relabeled", &mut ans, s, t);
+                if b.m() < 120 {
+                    let (f2b, fm2b) = to_stable_holes::<u32, $ty, u8>(&b, salt + 9, |w| w.unsigned_abs());
+                    ans.back = inv.clone();
+                    g_flow(&f2b, &View::full(&b, fm2b), "StableGraph<u8> holes relabeled", &mut ans, s, t);
+                }
             }
             // float encodings for bellman_ford
             {
@@ -400,13 +417,7 @@ pub fn run(c: &Case) -> Outcome {
                     g_cliques(&g3, &v3, "GraphMap", &mut ans);
                     g_cliques(&g4, &v4, "MatrixGraph holes", &mut ans);
                     g_cliques(&&g5, &v5, "Csr", &mut ans);
-                    ans.back = inv.clone();
-                    g_cliques(&g1, &v1, "Graph<u8> relabeled+reversed insertion", &mut ans);
                 }
-            }
-            // isomorphism between encodings of the same graph (simple graphs)
-            if is_simple {
-                ans.put("is_isomorphic(Graph, Graph relabeled)", "pair", || format!("{}", is_isomorphic(&g0, &g1)));
             }
         }};
     }
